@@ -112,4 +112,14 @@ theorem leaf_split_leaks :
   decide
 end Legacy
 
+/-- non-vacuity: a concrete history through a leaf split and a deletion stays inside the node geometry and ends in a valid
+    state, where an iterator positioned at the start takes exactly one reference per object of the first item -/
+example : ∃ s0 s' : CState Int Nat, (new Cfg.repaired 4 : Option (CState Int Nat)) = some s0 ∧
+    (∃ outs, C12.run s0 [.set 1 10, .set 2 20, .set 3 30, .set 4 40, .set 5 50, .del 2] = .ok (s', outs)) ∧ CInv s' ∧
+    (∃ it' out, iterNext s' (iterNew s' true) = .ok (it', out) ∧ (iterEvs out).dec = [] ∧ (iterEvs out).inc = handedOut out) := by
+  obtain ⟨s0, s', h0, h1, h2⟩ := no_out_of_bounds_along_histories (K := Int) (V := Nat) 4 (by omega) (by decide)
+    [.set 1 10, .set 2 20, .set 3 30, .set 4 40, .set 5 50, .del 2]
+  obtain ⟨it', out, e1, e2, e3, _⟩ := iterator_step_balanced s' h2 (iterNew s' true) (abs s') (pos_new s' h2 true)
+  exact ⟨s0, s', h0, h1, h2, it', out, e1, e2, e3⟩
+
 end BPT.Props.C13
